@@ -68,12 +68,15 @@ Matches(c, dev) ==
        /\ c.obs.data = r.val
        /\ (Mode = "errors" => ErrorsExplained(c, r, "DevDynamicNoErrorPath" \in dev))
 
-\* smallest set of deviations that reproduces the observation
-Explaining(c) == {D \in SUBSET DevsOf(c) : D # {} /\ Matches(c, D)}
-FirstDev(c) ==
-  LET E == Explaining(c) IN
-  IF E = {} THEN "violation"
-  ELSE "known:" \o JoinSet(CHOOSE D \in E : \A D2 \in E : Cardinality(D2) >= Cardinality(D))
+\* smallest set of deviations that reproduces the observation (sets are tried by increasing size so that the
+\* common single-deviation cases cost |Devs| evaluations of the reference, not 2^|Devs|)
+OfSize(c, n) == {D \in SUBSET DevsOf(c) : Cardinality(D) = n}
+RECURSIVE FirstDevN(_, _)
+FirstDevN(c, n) ==
+  IF n > Cardinality(DevsOf(c)) THEN "violation"
+  ELSE LET E == {D \in OfSize(c, n) : Matches(c, D)} IN
+       IF E # {} THEN "known:" \o JoinSet(CHOOSE D \in E : TRUE) ELSE FirstDevN(c, n + 1)
+FirstDev(c) == FirstDevN(c, 1)
 
 Verdict(c) ==
   IF c.obs.problem # "" THEN "violation:" \o "problem"
